@@ -10,8 +10,12 @@ import os
 
 CHECKS = {}
 # one file per claimed property: checks/meta/Cxx.json  {text, note, technique, ties, category?, design_ref?}
+# ... claimed only once the coordinator has validated the check on the clean tree: checks/meta/ENABLED
+_en = os.path.join(os.path.dirname(os.path.abspath(__file__)), "meta", "ENABLED")
+ENABLED = set(open(_en).read().split()) if os.path.exists(_en) else set()
 for _f in sorted(glob.glob(os.path.join(os.path.dirname(os.path.abspath(__file__)), "meta", "C*.json"))):
-    CHECKS[os.path.basename(_f)[:-5]] = json.load(open(_f))
+    if os.path.basename(_f)[:-5] in ENABLED:
+        CHECKS[os.path.basename(_f)[:-5]] = json.load(open(_f))
 HOOK_COMMITS = []
 _h = os.path.join(os.path.dirname(os.path.abspath(__file__)), "meta", "hook_commits.txt")
 if os.path.exists(_h):
